@@ -579,28 +579,14 @@ def runVoid (tr : Tr α) (out : Str) (compute : Tr α → Except Err (List α)) 
 
 def opBin (tr : Tr α) (o : Char) (in1 in2 out : Str) : Res α (List α) :=
   runVoid tr out (fun t => do let a ← getAF t in1; let b ← getAF t in2; vvOp o a b)
-/-- `ScalarDivider.execute` / `ScalarRevDivider.execute` since fix 5676890: the values are computed FIRST (when that
-    raises — division by zero, unknown input — nothing has been created), then `createAnalyticalFeature(out)`,
-    `addListToAF(out, temp)` -/
-def runAfter (tr : Tr α) (out : Str) (compute : Tr α → Except Err (List α)) : Res α (List α) :=
-  match compute tr with
-  | .error e => (.error e, tr)
-  | .ok temp =>
-    match createAF tr out (konst tr zero) with
-    | .error e => (.error e, tr)
-    | .ok tr1 =>
-      match writeAF tr1 out temp with
-      | .error e => (.error e, tr1)
-      | .ok tr2 => (.ok temp, tr2)
-/-- the input column as the loop `for i in range(track.size()): … getObsAnalyticalFeature(inp, i) …` reads it: on an
-    empty track nothing is read (an unknown name is not looked up, a zero divisor does not raise) -/
-def loopInput (t : Tr α) (inp : Str) : Except Err (List α) := if t.n = 0 then .ok [] else getAF t inp
+/-- the scalar operators `s+ … s<`: ScalarDivider included, which since fixes 5676890 / 2dd86ce has the shape of the others
+    (`createAnalyticalFeature(out)`, `temp[i] = x[i] / number` — ZeroDivisionError at the first observation for a zero
+    number, `out` already created —, `addListToAF`); it used to evaluate `1.0 / number` before anything was created -/
 def opScal (tr : Tr α) (o : Char) (inp : Str) (s : α) (out : Str) : Res α (List α) :=
-  if o = '/' then runAfter tr out (fun t => do let a ← loopInput t inp; vsOp o a s)
-  else runVoid tr out (fun t => do let a ← getAF t inp; vsOp o a s)
+  runVoid tr out (fun t => do let a ← getAF t inp; vsOp o a s)
+/-- `sr+ … sr<`: ScalarRevDivider included (`temp[i] = number / x[i]` after `createAnalyticalFeature(out)`) -/
 def opScalRev (tr : Tr α) (o : Char) (inp : Str) (s : α) (out : Str) : Res α (List α) :=
-  if o = '/' then runAfter tr out (fun t => do let a ← loopInput t inp; svOp o s a)
-  else runVoid tr out (fun t => do let a ← getAF t inp; svOp o s a)
+  runVoid tr out (fun t => do let a ← getAF t inp; svOp o s a)
 /-- the input column of a void function. The reads are per observation inside the loops: on a track
     too short for the loop body to run, an unknown input name is never looked up (the column, when it
     exists, is then not used either) -/
